@@ -44,8 +44,11 @@ ASSUMPTIONS = ["host objects enter an evaluation only as data (context variables
                "whitelist/blacklist predicates and regexes are pure functions of the name",
                "an explicit attribute_remapping entry and an explicit whitelist entry are grants by the host: a remap "
                "target may begin with '_' and a whitelisted remap target stays reachable under its own name",
-               "the canary sweep covers the functions registered by yaql.create_context() (default and "
-               "allow_delegates engines), not user-registered ones"]
+               "the static scan and the canary sweep cover the functions registered by yaql.create_context() with its "
+               "default arguments; delegates mode (create_context(delegates=True) / allow_delegates), where the host "
+               "deliberately lets expressions call callables found in data, and user-registered functions are outside",
+               "scanner: values returned by yaql's own Delegate / Context calls inside a payload are yaql data (see "
+               "harness/gen_effects.py, 'assumed')"]
 EXPLANATION = ("proof that the modelled gate admits exactly the allowed members for all settings/names + differential "
                "check of the three yaqlized overloads against it + static and dynamic sweep that nothing else touches hosts")
 LEVEL_NOTE = "partial: 'no other payload touches a host object' rests on the ast scanner (P, finite) and the canary sweep (O)"
@@ -535,10 +538,10 @@ def correspondence(run):
     corpus = load_corpus()
     grid = grid_cases()
     if run.quick:
-        picked = run.rng.sample(grid, min(len(grid), 2600))
+        picked = run.rng.sample(grid, min(len(grid), 5000))
     else:
         picked = grid
-    todo = list(corpus.get("single", [])) + picked + [random_case(run.rng) for _ in range(run.n(1500, 30000))]
+    todo = list(corpus.get("single", [])) + picked + [random_case(run.rng) for _ in range(run.n(2500, 80000))]
     terms, meta = [], []
     for i, c in enumerate(todo):
         c = dict(c)
@@ -637,21 +640,25 @@ def chain_term(c, obs):
 
 
 def random_chain(rng):
+    def plain(sa):
+        # in a chain the probe cannot tell a remapped read of __class__ from the interpreter's own: keep
+        # string remappings to ordinary names (tuple remappings and dunder targets are covered by the single cases)
+        sa["remap"] = [kv for kv in sa["remap"] if kv[1][0] == "s" and kv[1][1] not in PROTO_ATTRS]
+        return sa
+
     def maybe():
         r = rng.random()
         if r < 0.6:
             return None
-        sa = random_settings(rng)
-        sa["remap"] = [kv for kv in sa["remap"] if kv[1][0] == "s"]
-        return sa
-    root = random_settings(rng) if rng.random() < 0.3 else S(auto=rng.random() < 0.7, black=[["s", "bar"]] if rng.random() < 0.3 else [])
+        return plain(random_settings(rng))
+    root = plain(random_settings(rng)) if rng.random() < 0.3 else S(auto=rng.random() < 0.7, black=[["s", "bar"]] if rng.random() < 0.3 else [])
     kids = [[maybe(), rng.choice(["plain", "plain", "plain", "builtin", "frozen"])] for _ in range(rng.randrange(0, 4))]
     path = [[rng.choice(FORMS), rng.choice(CHAIN_NAMES)] for _ in range(rng.randrange(1, 5))]
     return {"root": root, "kids": kids, "path": path}
 
 
 def chain_correspondence(run, corpus):
-    todo = list(corpus) + [random_chain(run.rng) for _ in range(run.n(400, 6000))]
+    todo = list(corpus) + [random_chain(run.rng) for _ in range(run.n(600, 15000))]
     terms, meta = [], []
     for i, c in enumerate(todo):
         obs, anomaly, text = run_chain(c["root"], c["kids"], c["path"])
